@@ -291,13 +291,14 @@ Section WithTable.
 
   Definition is_div (n : node) : bool := match n with NOther 16 => true | _ => false end.
 
-  (* splitNodes: the groups between dividers; a trailing divider opens no group *)
-  Fixpoint split_nodes_go (cur : list node) (l : list node) : list (list node) :=
+  (* splitNodes: the groups between dividers; no node, no group; after a divider there is always a
+     (possibly empty) last group: "{% else %}" with nothing behind it is an empty else branch *)
+  Fixpoint split_nodes_go (seen : bool) (cur : list node) (l : list node) : list (list node) :=
     match l with
-    | [] => match cur with [] => [] | _ => [rev cur] end
-    | n :: r => if is_div n then rev cur :: split_nodes_go [] r else split_nodes_go (n :: cur) r
+    | [] => match cur with [] => if seen then [[]] else [] | _ => [rev cur] end
+    | n :: r => if is_div n then rev cur :: split_nodes_go true [] r else split_nodes_go seen (n :: cur) r
     end.
-  Definition split_nodes (l : list node) : list (list node) := split_nodes_go [] l.
+  Definition split_nodes (l : list node) : list (list node) := split_nodes_go false [] l.
 
   Definition cond_children (sub : list node) : list node :=
     match split_nodes sub with
